@@ -135,6 +135,10 @@ namespace cdsverif {
                 nodes_ = limit_ + 1;    // too long to decide: reported as "gave up"
                 return true;
             }
+            // long, heavily overlapping histories make the search combinatorial: decide them with a smaller
+            // node budget (undecided cases are counted as "gave up", never as violations)
+            if ( h_.size() > 22 && limit_ > 20000 )
+                limit_ = 20000;
             Model m = init;
             return search( 0, m );
         }
